@@ -399,7 +399,7 @@ impl Program {
 
     /// several files: `file_of[k]` = file index of `self.globals()[k]`; file 0 is the root and must
     /// contain `main`. Every file imports all the others (import cycles are allowed).
-    pub fn capy_files(&self, order: &[Global], file_of: &dyn Fn(Global) -> usize, nfiles: usize) -> Vec<(String, String)> {
+    pub fn capy_files(&self, order: &[Global], file_of: &dyn std::ops::Fn(Global) -> usize, nfiles: usize) -> Vec<(String, String)> {
         let q = Qual {
             file_of_fn: (0..self.fns.len()).map(|i| file_of(Global::Fn(i))).collect(),
             file_of_struct: (0..self.structs.len()).map(|i| file_of(Global::Struct(i))).collect(),
